@@ -213,6 +213,22 @@ def run(ctx):
         from .common import rule_noexcept
         ctx.rule("R20.5", "no function of the adaptors that runs the wrapped iterator's or the elements' own operations is declared noexcept: what the caller's iterator throws part-way reaches the caller after the elements visited so far")
         rule_noexcept(ctx, "R20.5", lambda g: g.file.endswith(("lang/enumerate.hpp", "lang/reverse.hpp")), "the wrapped range's exception has to reach the caller", minimum=6)
+        # ---- R20.6: which overload may copy. The adaptors alias an lvalue range and own only what was handed over as a temporary. An entry
+        # point that takes its range BY VALUE is viable for lvalues too (and more specialised than the generic reference overloads): a named
+        # initializer_list / container is copied, the walk visits the copy, writes and element identity are lost
+        ctx.rule("R20.6", "the entry points enumerate() / reverse() take their range by lvalue reference (aliasing) or by rvalue reference (owning) - never by value")
+        nep = 0
+        seen_ep = set()
+        for g in sorted(prog.fns.values(), key=lambda h: h.id):
+            if g.qual not in (NS + "enumerate", NS + "reverse") or not g.file.startswith("/repo/") or not g.is_pattern or (g.file, g.line) in seen_ep:
+                continue
+            seen_ep.add((g.file, g.line))
+            for p0 in g.params:
+                nep += 1
+                ctx.check(bool(p0.get("ref")), "R20.6", g, "range-parameter-is-a-reference:%s:%s" % (short(g.qual), (p0.get("type") or "")[:40]),
+                          "%s takes its range as `%s` - by value: the overload is viable for an lvalue (a named std::initializer_list, a container) and wins over the aliasing overloads; "
+                          "the range is copied and the copy is visited, not the caller's elements" % (short(g.qual), p0.get("type")), g, why_ok=p0.get("type") or "")
+        ctx.need("R20.6", "range parameters of enumerate() / reverse()", nep, 6)
         from .common import rule_no_move_from_member
         rule_no_move_from_member(ctx, "R20.1", lambda g: g.file.endswith(("lang/enumerate.hpp", "lang/reverse.hpp")),
                                  "begin() / end() / operator* can be asked again - a second traversal of the same enumerate / reverse object starts from an emptied iterator and visits nothing", minimum=8)
